@@ -129,3 +129,14 @@ impl ChainController {
         self.orphan_block_broker.len()
     }
 }
+
+#[cfg(feature = "verif-hooks")]
+impl ChainController {
+    /// verif-hooks: same as `asynchronous_process_lonely_block`, but returns only after the
+    /// chain-service thread has finished handling this request (non-contextual verification,
+    /// `insert_block`, orphan broker). It does NOT wait for the verification of the block.
+    /// Returns false when the chain service has gone.
+    pub fn verif_process_lonely_block_sync(&self, lonely_block: LonelyBlock) -> bool {
+        Request::call(&self.process_block_sender, lonely_block).is_some()
+    }
+}
